@@ -219,7 +219,11 @@ func (s *Sim) log(r Rec) {
 	if s.race && !raceKinds[r.Kind] {
 		// C17's engine R pass judges handler identity and needs the hand-overs and
 		// the registrations (it is not looking for data races)
-		if !(s.sc.Prop == "C17" && (r.Kind == "hin" || r.Kind == "inv" || r.Kind == "ret" || r.Kind == "dialdone" || r.Kind == "close" || r.Kind == "write")) {
+		c17 := s.sc.Prop == "C17" && (r.Kind == "hin" || r.Kind == "inv" || r.Kind == "ret" || r.Kind == "dialdone" || r.Kind == "close" || r.Kind == "write")
+		// C16's engine R pass judges what the state callback and Err() say when
+		// endings race with each other (same remark)
+		c16 := s.sc.Prop == "C16" && (r.Kind == "state" || r.Kind == "inv" || r.Kind == "ret" || r.Kind == "cause" || r.Kind == "close" || r.Kind == "finalerr" || r.Kind == "dialdone")
+		if !c17 && !c16 {
 			return
 		}
 	}
@@ -368,6 +372,13 @@ func (s *Sim) runRoot(res *Result) {
 		idx++
 		return int64(1 + idx%997)
 	}
+	// engine R, C16 pass: faults and scripted packets addressed to an instant
+	// fire when the gate of that instant opens, so that what they set off runs
+	// concurrently with the callers released there
+	withGate := int64(0)
+	if s.race && sc.Prop == "C16" {
+		withGate = 998
+	}
 	gates := map[int64]chan struct{}{}
 	for i := range sc.Ops {
 		i := i
@@ -391,7 +402,7 @@ func (s *Sim) runRoot(res *Result) {
 		f := sc.Faults[i]
 		switch f.Kind {
 		case "cutAt":
-			s.at(us(f.AtUs)+resid(), "cutAt", func() {
+			s.at(us(f.AtUs)+resid()+withGate, "cutAt", func() {
 				if s.faultsOff.Load() {
 					return
 				}
@@ -418,7 +429,7 @@ func (s *Sim) runRoot(res *Result) {
 			continue // triggered by the broker
 		}
 		i := i
-		s.at(us(o.AtUs)+resid(), "script", func() { s.runScript(i) })
+		s.at(us(o.AtUs)+resid()+withGate, "script", func() { s.runScript(i) })
 	}
 	for at, g := range gates {
 		g := g
